@@ -686,6 +686,7 @@ type ST struct {
 func (s ST) Meth() int { return s.A + 100 }
 
 type MyInt int
+type MyFn func() int
 
 var ExpInt = 7
 var unexpInt = 8
